@@ -49,14 +49,17 @@ theorem zero_size_leaves_destination (p : PixT) (src prev : Img) (alg : Alg) (us
     resizeModel p src prev ⟨alg, .box cl ct cw ch, useAlpha⟩ = (0, prev) :=
   Fir.Proofs.zero_size_leaves_destination p src prev alg useAlpha cl ct cw ch hz
 
-/-- convolution with at least one required pass: the result is independent of what the destination
-    held before (two destinations of the same size give the same result) -/
+/-- convolution with at least one required pass, and horizontal windows that are not all empty (always
+    so for the built-in filters; the exception is known finding F18): the result is independent of what the
+    destination held before (two destinations of the same size give the same result) -/
 theorem convolution_overwrites_everything (p : PixT) (src prev prev' : Img) (cl ct cw ch : Float) (f : FilterSpec) (adaptive : Bool)
     (hw : prev'.w = prev.w) (hh : prev'.h = prev.h)
     (hne : ¬ (prev.w = 0 ∨ prev.h = 0 ∨ cw ≤ 0.0 ∨ ch ≤ 0.0))
-    (hpass : (Float.ofNat prev.w != cw || cl != cl.round) = true ∨ (Float.ofNat prev.h != ch || ct != ct.round) = true) :
+    (hpass : (Float.ofNat prev.w != cw || cl != cl.round) = true ∨ (Float.ofNat prev.h != ch || ct != ct.round) = true)
+    (htemp : boundsLast (precomputeCoefficients src.w cl (cl + cw) prev.w f adaptive)
+               - boundsFirst (precomputeCoefficients src.w cl (cl + cw) prev.w f adaptive) ≠ 0) :
     doConvolution p src cl ct cw ch prev f adaptive = doConvolution p src cl ct cw ch prev' f adaptive :=
-  Fir.Proofs.convolution_overwrites_everything p src prev prev' cl ct cw ch f adaptive hw hh hne hpass
+  Fir.Proofs.convolution_overwrites_everything p src prev prev' cl ct cw ch f adaptive hw hh hne hpass htemp
 
 /-- Nearest: likewise -/
 theorem nearest_overwrites_everything (src prev prev' : Img) (cl ct cw ch : Float)
